@@ -35,19 +35,29 @@
      "<" ">" "/" comment delimiters, "\\" "\n" "\r", everything else is a token
      with a payload (probe, directive).
 
-   FixLine = FALSE transcribes the pinned read_line_marker (delta = n - line of
-   the directive: the next line becomes n+1, D16).  Probes on continuation lines
-   (unit SP) are where chibicc's design departs from Level A (all tokens of a
-   spliced logical line get its first physical line; recorded finding D16):
-   the invariant SameButSplice leaves exactly these probes out, SameAll is the
-   control that must fail.                                                    *)
+   The tree as it is departs from Level A in two recorded ways (findings):
+   D16-line: read_line_marker sets delta = n - (line of the directive), so the
+     line after `#line n` becomes n+1 (LineOff = 1).  test/line.c encodes n+1,
+     so it is recorded, not repaired.
+   D16-splice: all tokens of a spliced logical line get its first physical
+     line, so a probe on a continuation line (unit SP) is one too low.
+   The main invariant SameButRecorded speaks about the tree as it is: every
+   probe has the Level A identity and file name; probes not on a continuation
+   line have the Level A line, plus exactly RecordedLineDev iff the probe is
+   governed by a #line directive of its own file (field g of Level A).
+   Controls that TLC must reject: LineOff = 2 (any other delta error), the
+   strict invariant (RecordedLineDev = 0) with LineOff = 1, and SameAll
+   (continuation-line probes included).  LineOff = 0 with RecordedLineDev = 0
+   is the repaired design (Lines_repaired.cfg).                              *)
 EXTENDS Integers, Sequences, SequencesExt, FiniteSets, TLC, Json, CSV, IOUtils
 
 CONSTANTS MaxLen,        \* units per main file (between the fixed prologue and epilogue)
           Kinds,         \* unit alphabet of the main file
           Eols,          \* subset of {"LF", "CRLF", "CR"}
           Seed, Stride,
-          FixLine,
+          LineOff,       \* what read_line_marker does: the line after `#line n` is presumed to be n + LineOff
+                         \* (1 = the tree as it is: delta = n - line of the directive; 0 = repaired; 2 = control)
+          RecordedLineDev, \* the deviation recorded as finding D16-line and tolerated by SameButRecorded (1; 0 once repaired)
           Emit
 
 (* ---- units -------------------------------------------------------------- *)
@@ -72,7 +82,7 @@ WalkA(units, i, phys, base, name, tag, acc) ==
   ELSE LET k == units[i] IN
        IF ProbeOff(k) >= 0
        THEN WalkA(units, i + 1, phys + NPhys(k), base, name, tag,
-                  Append(acc, [id |-> Id(tag, k, i), line |-> Presumed(base, phys + ProbeOff(k)), file |-> name, k |-> k]))
+                  Append(acc, [id |-> Id(tag, k, i), line |-> Presumed(base, phys + ProbeOff(k)), file |-> name, k |-> k, g |-> base # <<>>]))
        ELSE IF LineArg(k) > 0
        THEN WalkA(units, i + 1, phys + 1, <<LineArg(k), phys>>, IF k = "F" THEN "foo.c" ELSE name, tag, acc)
        ELSE IF IsInc(k)
@@ -160,7 +170,7 @@ PP(toks, i, st, eol, final, kindOf) ==
             IN PP(toks, i + 1, [st EXCEPT !.out = sub], eol, final, kindOf)
        ELSE \* read_line_marker: start->file->line_delta = tok->val - start->line_no
             LET k == SubSeq(t, 2, Len(t))
-                d == LineArg(k) - ln - (IF FixLine THEN 1 ELSE 0)
+                d == LineArg(k) - ln - 1 + LineOff
             IN PP(toks, i + 1, [st EXCEPT !.delta = d, !.dname = IF k = "F" THEN "foo.c" ELSE @], eol, final, kindOf)
 
 RunI(units, eol, final) ==
@@ -189,11 +199,18 @@ Next == Eval
 Spec == Init /\ [][Next]_vars
 
 -----------------------------------------------------------------------------
-NoSplice(r) == SelectSeq(r, LAMBDA p : p.k # "SP")
-(* every probe that is not on a continuation line has the Level A position *)
-SameButSplice == done => NoSplice(resI) = NoSplice(resA)
+(* the tree as it is: Level A up to exactly the two recorded deviations *)
+SameButRecorded ==
+  done => /\ Len(resI) = Len(resA)
+          /\ \A i \in DOMAIN resA :
+               /\ resI[i].id = resA[i].id
+               /\ resI[i].file = resA[i].file
+               /\ \/ resA[i].k = "SP"
+                  \/ resI[i].line = resA[i].line + (IF resA[i].g THEN RecordedLineDev ELSE 0)
 (* the same probes are seen, in the same order (comments swallow exactly what they should) *)
 SameProbes == done => [i \in DOMAIN resI |-> resI[i].id] = [i \in DOMAIN resA |-> resA[i].id]
 (* control: with the continuation-line probes included the levels differ (finding D16) *)
-SameAll == done => resI = resA
+SameAll == done => /\ Len(resI) = Len(resA)
+                   /\ \A i \in DOMAIN resA : resI[i].id = resA[i].id /\ resI[i].file = resA[i].file
+                                               /\ resI[i].line = resA[i].line + (IF resA[i].g THEN RecordedLineDev ELSE 0)
 =============================================================================
